@@ -380,6 +380,7 @@ struct Runner
     int ray_kind, api, disturb, cast_no;
     const P * bound_o = nullptr; const P * bound_e = nullptr;       // references bound right after the cast,
     const C * bound_oi = nullptr; const C * bound_ei = nullptr;     // read after other objects were used
+    int value_op = -1;        // value-semantics step (ValueOp) or VO_COUNT = interference, applied before / inside this cast
     int grid_changed = 0;     // 1: first cast after the grid seen by the caster changed, 2: ... with the previous origin
     LD ncoord;      // max(cells per axis, coordinate magnitude in cells)
   };
@@ -438,7 +439,7 @@ struct Runner
           {"deviation_cells", static_cast<double>(dev_cells)}, {"at_step", static_cast<double>(where)},
           {"origin_border_dist_cells", border_dist_cells(ci.o)}, {"end_border_dist_cells", border_dist_cells(ci.e)},
           {"ray_kind", ci.ray_kind}, {"api", ci.api}, {"disturb", ci.disturb}, {"cast_no", ci.cast_no},
-          {"grid_changed", ci.grid_changed}};
+          {"grid_changed", ci.grid_changed}, {"value_op", ci.value_op}};
       };
     auto wit = [&]() {
         size_t lo = where > 3 ? where - 3 : 0;
@@ -446,7 +447,8 @@ struct Runner
                .raw("origin", vh::jvec(ci.o)).raw("end", vh::jvec(ci.e))
                .raw("origin_idx", vh::jvec(oi.template cast<double>())).raw("end_idx", vh::jvec(ei.template cast<double>()))
                .s("ray_kind", RK_NAME[ci.ray_kind]).s("api", API_NAME[ci.api]).s("disturb", DI_NAME[ci.disturb])
-               .f("cast_no", ci.cast_no).f("grid_changed_before_cast", ci.grid_changed).f("cells_returned", static_cast<uint64_t>(ray.size()))
+               .f("cast_no", ci.cast_no).f("grid_changed_before_cast", ci.grid_changed)
+               .s("value_op", ci.value_op < 0 ? "none" : (ci.value_op == VO_COUNT ? "interference" : VO_NAME[ci.value_op])).f("cells_returned", static_cast<uint64_t>(ray.size()))
                .f("at_step", static_cast<uint64_t>(where)).raw("cells_around", ray_json(ray, lo, where + 3))
                .raw("last_cells", ray_json(ray, ray.size() > 3 ? ray.size() - 3 : 0, ray.size())).str();
       };
@@ -839,6 +841,7 @@ struct Runner
       }
 
       // -------- state disturbance before the cast
+      ci.value_op = -1;
       int di = r.coin(0.35) ? DI_NONE : static_cast<int>(r.range(1, DI_SAME_GRID_AGAIN));
       {
         double u = r.uni();         // a small share of long repetitions of one cheap mutator
@@ -848,7 +851,7 @@ struct Runner
       // touches the grid: setEndPoint() alone would use the origin cell cached for the old grid
       if (after_change && (di == DI_SETEND || di == DI_SETORIGIN || di == DI_LONG_256 || di == DI_LONG_65536)) {di = DI_NEXT;}
       switch (di) {
-        case DI_VALUE_OP: value_op(static_cast<int>(r.range(0, VO_COUNT - 1))); break;
+        case DI_VALUE_OP: ci.value_op = static_cast<int>(r.range(0, VO_COUNT - 1)); value_op(ci.value_op); break;
         case DI_SAME_GRID_AGAIN: cp->setGridIndexMapping(&m); break;
         case DI_LONG_256:
         case DI_LONG_65536: {
@@ -910,6 +913,7 @@ struct Runner
         double u = r.uni();
         if (u < 0.25) {mid_op = static_cast<int>(r.range(0, VO_COUNT - 1));} else if (u < 0.5) {mid_op = VO_COUNT;}
       }
+      if (mid_op >= 0) {ci.value_op = mid_op;}
       auto between = [&]() {
           if (mid_op < 0) {return;}
           if (mid_op == VO_COUNT) {interfere(); c.cat("interference_between_setend_and_traversal");} else {
